@@ -296,6 +296,61 @@ def run(ctx):
         for c in bypass_cmps(hb):
             cut += bool_result_edge(hb, c, c.nname.endswith("eq"))
         probs = []
+        # a permission check inside a `for` over the event types the command reads: leaving the loop by exhaustion counts as a
+        # decision when no iteration can be completed without one and the collection holds the command's event type(s)
+        covered = set()
+        for p in perm:
+            for h in for_headers(hb):
+                try:
+                    some = variant_edge(hb, h, "Some")
+                    none = variant_edge(hb, h, "None")
+                except AnchorMissing:
+                    continue
+                inside = set(hb.reach(0, src_edges=some, cut_blocks=[h.bb]))
+                if p.bb not in inside or not hb.can_reach(p.bb, h.bb):
+                    continue
+                if h.bb in set(hb.reach(0, src_edges=some, cut_edges=cut)):
+                    probs.append("an iteration of the permission loop can be completed without a permission decision")
+                    continue
+                # the iterated collection
+                ic = None
+                for l in hb.origins(h.args[0]):
+                    if l[0] == "call" and norm_path(l[1]).endswith("into_iter"):
+                        ic = hb.call_at(l[2])
+                if ic is None:
+                    for c_ in hb.calls:
+                        if not c_.cleanup and c_.nname.endswith("IntoIterator>::into_iter") and hb.dominates_edge((c_.bb, c_.to), h.bb) and (set(c_.dest or []) & hb._origin_locals(h.args[0])):
+                            ic = c_
+                if ic is None:
+                    probs.append("the collection the permission loop iterates could not be identified")
+                    continue
+                coll = hb._origin_locals(ic.args[0])
+                fields = set()
+                for l_ in wide_all(hb, ic.args[0]):
+                    for o in hb.origins({"c": [l_]}):
+                        if o[0] in ("upvar", "param") and len(o) > 2 and ".command" in o[2]:
+                            fields.add(o[2][-1])
+                for e in hb.calls:
+                    if e.cleanup or not e.nname.endswith("Extend>::extend") or not (hb._origin_locals(e.args[0]) & coll):
+                        continue
+                    src = e.args[1]
+                    for _ in range(4):
+                        L = hb.origins(src)
+                        nxt = [l for l in L if l[0] == "call" and re.search(r"Iterator::(map|cloned|copied)$|slice::iter$|Deref>::deref$|IntoIterator>::into_iter$", norm_path(l[1]))]
+                        if not nxt:
+                            break
+                        src = hb.call_at(nxt[0][2]).args[0]
+                    for o in hb.origins(src):
+                        if o[0] in ("upvar", "param") and len(o) > 2 and ".links" in o[2] and ".event_sequence" in o[2]:
+                            # executed whenever the command has a sequence: only the None edge of that test may bypass it
+                            sw_ = [(i_, t_) for i_, si_ in enum_switches_on(hb, lambda L_: has_origin(L_, None, proj_contains=[".event_sequence"]), r"option::Option") for t_ in edges_for_variant(si_, "None")]
+                            if h.bb not in set(hb.reach(0, cut_blocks=[e.bb], cut_edges=sw_)):
+                                fields.add(".event_sequence.links")
+                covered |= fields
+                if ".event_type" in fields:
+                    cut = cut + none
+                else:
+                    probs.append("the permission loop iterates a collection that does not hold the command's event type")
         sinks = hb.find_calls(sinks_re)
         if not sinks:
             probs.append("no data-access sink /%s/ found" % sinks_re)
@@ -303,6 +358,7 @@ def run(ctx):
             seen = hb.reach(0, cut_edges=cut)
             if s.bb in seen:
                 probs.append("sink %s reachable without a permission decision" % s.nname.split("::")[-1])
+        handler_guarded.covered = covered
         return probs, perm
 
     def c(inst):
@@ -348,10 +404,17 @@ def run(ctx):
                 if perm and not any(p.nname.endswith(want) for p in perm):
                     bad.append(("wrong-permission:%s" % v, "handler of Command::%s checks %s, expected %s" % (v, [p.nname.split("::")[-1] for p in perm], want), None))
                 # the permission is checked for the command's event type
+                cov = getattr(handler_guarded, "covered", set())
+                if v == "Query":
+                    inst.sites.append("Query: event types checked: %s" % (sorted(cov) or ["event_type"]))
+                    # a sequence query reads the linked event types as well: they must be among the types checked
+                    if ".event_sequence.links" not in cov:
+                        bad.append(("sequence-links-unchecked", "handler of Command::Query checks read permission for the head event type only: QUERY a FOLLOWED BY b returns the rows of b to a user who may read a", None))
                 for p in perm:
                     if p.nname.endswith(("can_read", "can_write")):
                         Le = fmt_leaves(hb.origins(p.args[2]))
-                        if "event_type" not in Le:
+                        in_loop = any(l[0] == "call" and norm_path(l[1]).endswith("::next") for l in hb.origins(p.args[2])) and ".event_type" in cov
+                        if "event_type" not in Le and not in_loop:
                             bad.append(("permission-other-type:%s" % v, "permission checked for %s instead of the command's event type" % Le, None))
                     Lu = hb.origins(p.args[1])
                     if not (has_origin(Lu, None, proj_contains=[".user_id"]) or has_origin(Lu, "upvar", "user_id") or has_origin(Lu, "param", "user_id")):
